@@ -183,14 +183,16 @@ class Net:
             kind, k = ps[rng.below(len(ps))] if rng is not None else ps[0]
             self.deliver(kind, k); n += 1
 
-    def settle(self, rng=None, budget=int(os.environ.get("NET_BUDGET", "6000")), max_ticks=int(os.environ.get("NET_MAX_TICKS", "3000")), until=None):
+    def settle(self, rng=None, budget=int(os.environ.get("NET_BUDGET", "2000")), max_ticks=int(os.environ.get("NET_MAX_TICKS", "3000")), until=None):
         """messages are faster than the election timeout: deliver everything that can be delivered; only when nothing can,
         let one parked election take one turn of its wait loop; until nothing is in flight and nothing is parked.
         Returns False when the budget is exhausted."""
-        steps = 0
+        steps = 0; total = 0
         while True:
-            n = self.quiesce(rng, budget)
+            # the budget bounds the deliveries of the WHOLE call (an exchange that never ends must not run budget x ticks deliveries)
+            n = self.quiesce(rng, max(0, budget - total))
             if n is None: return False
+            total += n
             if until is not None and until(self): return True      # a staggered trigger: the caller injects the next event here
             if not self.parked: return True
             if self.ticks >= max_ticks or steps >= budget: return False
@@ -203,9 +205,11 @@ class Net:
         message is delivered or held back at random (FIFO per connection; a message is never held for more than `delay` rounds,
         i.e. 2*delay ms < NUN_ELECTION_TIMEOUT = 10 ms), then every election waiting in one of its 2 ms loops takes exactly one turn;
         an election in its 100 ms pause before claiming resumes `final_rounds` rounds after it got there."""
+        total = 0
         while True:
             # deliveries of this round
             n = 0
+            if total > int(os.environ.get("NET_BUDGET", "2000")) * 3: return False     # an exchange that never ends
             while True:
                 ps = self.pending()
                 if not ps or n > 400: break
@@ -215,6 +219,7 @@ class Net:
                 elif rng.below(3) == 0: break                       # the rest waits for the next round
                 else: kind, k = ps[rng.below(len(ps))]
                 self.deliver(kind, k); n += 1
+            total += n
             if until is not None and until(self): return True
             if not self.parked and not self.pending(): return True
             if self.round >= max_rounds: return False
